@@ -195,7 +195,7 @@ CacheSound == (Protocol = "wal" /\ disk.st = "ok") =>
                  \A t \in Tasks : disk.map[t] # EmptyD => disk.map[t] = EffLastOk(t)
 \* ... and (crash-free, no failure since) the converse, behind C02
 CacheComplete == (Protocol = "wal" /\ disk.st = "ok" /\ inv = Idle /\ ~crashed) =>
-                 \A t \in Tasks : (lastOk[t] # NeverS /\ lastOk[t] # {} /\ ~lastFailed[t]) => disk.map[t] = lastOk[t]
+                 \A t \in Tasks : MustSkip(t) => disk.map[t] = Digest(t)
 
 \* scenario export: one line per finished history (simulation mode)
 EmitHist == (MaxHist > 0 /\ Len(hist) = MaxHist /\ inv = Idle) => PrintT(<<"HIST", ToJson(hist)>>)
